@@ -665,7 +665,9 @@ def twin_pairs(FA):
         base = f.get('_base', '')
         twin_name = f['name'][:-len('_unchecked')]
         cands = [g for g in FA.by_base_name.get((base, twin_name), []) if g['impl_trait'] == f['impl_trait'] and not g['derived']]
-        if cands:
+        # the checked / unchecked pairing is a contract of the public API; private helpers that happen to be named alike
+        # (`path` / `path_unchecked`) are not twins in that sense
+        if cands and (f['exported'] or f['pub']) and (cands[0]['exported'] or cands[0]['pub']):
             yield cands[0], f, base
 
 
@@ -739,8 +741,8 @@ def rule_TW(FA):
             out.append(Inst('R-TW', key, 'ok', m['span'], 'shape ' + '/'.join(sorted(shapes)), props,
                             sample={'shapes': sorted(shapes)}))
     # (iv) trait defaults rank0 / rank0_unchecked
-    r0 = FA.fns.get('RankBin::rank0')
-    r0u = FA.fns.get('RankBin::rank0_unchecked')
+    r0 = FA.fns.get('RankBin::rank0') or next((g for p_, g in FA.fns.items() if p_.endswith('::RankBin::rank0')), None)
+    r0u = FA.fns.get('RankBin::rank0_unchecked') or next((g for p_, g in FA.fns.items() if p_.endswith('::RankBin::rank0_unchecked')), None)
     props = ['C06', 'C10']
     if r0 is None or r0u is None:
         out.append(Inst('R-TW', 'R-TW|RankBin::rank0 defaults', 'violation', '', 'default methods not found (anchor lost)', props))
